@@ -11,9 +11,9 @@ import (
 	"fmt"
 	"os"
 	"sort"
-	"time"
 	"strings"
 	"sync"
+	"time"
 
 	"verif/ev"
 	"verif/fqx"
@@ -54,7 +54,27 @@ func c06SeedsGet() *c06Seeds {
 				return its[i].Path < its[j].Path
 			})
 			if len(its) > 6 {
-				its = its[:6]
+				// the 3 smallest (often hand-made special cases) plus 3 spread over the rest <= 16 KiB (full-featured
+				// samples: an mp4 with stsd/trun boxes, a flac with frames, ...)
+				var rest []corpusItem
+				for _, x := range its[3:] {
+					if len(x.Data) <= 16*1024 {
+						rest = append(rest, x)
+					}
+				}
+				pick := its[:3:3]
+				for q := 0; q < 3 && len(rest) > 0; q++ {
+					pick = append(pick, rest[(len(rest)-1)*q/2])
+				}
+				seenP := map[string]bool{}
+				var uniq []corpusItem
+				for _, x := range pick {
+					if !seenP[x.Path] {
+						seenP[x.Path] = true
+						uniq = append(uniq, x)
+					}
+				}
+				its = uniq
 			}
 			s.byFormat[f] = its
 			for _, it := range its {
@@ -243,7 +263,7 @@ func hexHead(b []byte) string {
 
 func c06Main(args []string) {
 	run := ev.NewRun("C06")
-	run.Rule = "mutation family (every truncation <768 then every 61st + last 64; every bit flip in the first 192 bytes; byte overwrite {00,7f,80,ff} at every offset <384 then every 31st; 1/2/4/8-byte length saturation patterns in the first 256 bytes; block dup/remove of 1/4/16/64 bytes every 16) around the <=6 smallest corpus samples per format, x all registered formats + probe x force; quick = PRNG slice with an equal share per format, thorough = the whole family enumerated. Event = Go panic escaping decode.Decode / interp.Main or worker death by a Go fatal error. non-trivial = mutated input that still produced a (partial) tree; distinct = (outcome, format, mutation kind, seed)"
+	run.Rule = "mutation family (every truncation <768 then every 61st + last 64; every bit flip in the first 192 bytes; byte overwrite {00,7f,80,ff} at every offset <384, then ff at every offset and {00,7f,80} every 31st; 1/2/4/8-byte length saturation patterns in the first 256 bytes; block dup/remove of 1/4/16/64 bytes every 16) around <=6 corpus samples per format (3 smallest + 3 spread up to 16 KiB), x all registered formats + probe x force; quick = PRNG slice with an equal share per format, thorough = the whole family enumerated. Event = Go panic escaping decode.Decode / interp.Main or worker death by a Go fatal error. non-trivial = mutated input that still produced a (partial) tree; distinct = (outcome, format, mutation kind, seed)"
 	run.Assumptions = []string{
 		"out-of-memory kills and watchdog expiry (decoder loops / length-field bombs under force) are inconclusive, listed per format, never a verdict",
 		"a panic is identified by (format, top-most fq frame, panic class)",
